@@ -38,7 +38,12 @@ class SourceBase:
         self.fault_exc = None
         self.transient = bool(fault and fault.get("transient"))  # the failure is a one-off: later pulls work again
         if fault:
-            self.fault_exc = make_exc(fault["exc"], f"planned:{name}")
+            exc_name = fault["exc"]
+            if exc_name == "IndexError" and spec.get("fl") == "seq":
+                # for an object iterated through __getitem__ an IndexError IS the end of the data (the legacy
+                # sequence protocol), not a failure: plan a different type for this flavour, on both sides
+                exc_name = "LookupError"
+            self.fault_exc = make_exc(exc_name, f"planned:{name}")
             ctx.planned[name] = self.fault_exc
         self.close_fault = None
         self.close_raised = False
